@@ -126,7 +126,7 @@ class Gen(object):
             base = dict((k, b[k]) for k in ("name", "short", "version", "type"))
         ctype = self.rr(self.T["compose_types"])
         date = "%08d" % r.randrange(10 ** 8)
-        respin = r.choice([0, 1, 2, 12, 99, 2 ** 40 + 1, -3, 10 ** 20])
+        respin = r.choice([0, 1, 2, 12, 99, 2 ** 53 + 1, -3, 10 ** 20 + 7])
         cid = "%s-%s-%s%s.%d" % (rel["short"], rel["version"], date, COMPOSE_SUFFIX.get(ctype, ""), abs(respin))
         labels = self.T["label_names"]
         label = None
